@@ -220,7 +220,7 @@ func runEnergy(c *ctx) error {
 	}
 	mk := func(f func() (hx.J, string)) ln { j, s := f(); return ln{j, s} }
 	pool := []ln{mk(func() (hx.J, string) { return num(1000) }), mk(func() (hx.J, string) { return num(-2000) }), mk(func() (hx.J, string) { return num(0) }),
-		mk(func() (hx.J, string) { return num(7) }), mk(func() (hx.J, string) { return gar("abc") }), mk(func() (hx.J, string) { return gar(" 5") }),
+		mk(func() (hx.J, string) { return num(7) }), mk(func() (hx.J, string) { return num(16777217) }), mk(func() (hx.J, string) { return num(-123456789) }), mk(func() (hx.J, string) { return gar("abc") }), mk(func() (hx.J, string) { return gar(" 5") }),
 		mk(func() (hx.J, string) { return gar("1,5") }), mk(func() (hx.J, string) { return gar("") })}
 	for _, a := range pool {
 		calFile([]hx.J{a.j}, []string{a.s}, false, "\n")
